@@ -62,13 +62,14 @@ Theorem C07_core_responses :
 Proof. exact CoreProofsDEF.core_responses. Qed.
 Print Assumptions C07_core_responses.
 
-(* Continuations are dropped only where an unsubscribe request or a disconnect meets waiting requests: without those, none. *)
+(* Continuations are dropped only where an unsubscribe request, a disconnect or a revocation (token / reaccess event) meets
+   waiting requests: in histories without those, none is. *)
 Theorem C07_core_nothing_dropped_without_unsubscribe :
   forall (val upd : Type) (app : upd -> val -> val) (norm : upd -> val -> option upd) (d : val),
   (forall u v, norm u v = None -> app u v = v) ->
   (forall u v u', norm u v = Some u' -> app u' v = app u v) ->
   forall t ops c,
-  (forall o, In o ops -> match o with Core.CUnsub _ _ _ _ | Core.Disc _ _ => False | _ => True end) ->
+  (forall o, In o ops -> match o with Core.CUnsub _ _ _ _ | Core.Disc _ _ | Core.ConnToken _ _ _ | Core.MqReacc _ => False | _ => True end) ->
   Core.dropped val upd (fst (Core.exec val upd app norm d t ops)) c = [].
 Proof. exact CoreProofsDEF.core_nothing_dropped_without_unsubscribe. Qed.
 Print Assumptions C07_core_nothing_dropped_without_unsubscribe.
